@@ -97,7 +97,9 @@ CHECKS = {
              'publication, is initialised false by the constructor, and the Search object is published before '
              'the thread starts; (R3) every recursive call and every unbounded loop of the search drivers polls '
              'the flag; (R4) after an observed stop the activation unwinds by returns only; (R5) nothing '
-             'reachable from isready/stop blocks and the output lock is released on every path. '
+             'reachable from isready/stop blocks and the output lock is released on every path; (R6) the search thread is never detached, '
+             'is stopped and joined before a new one replaces it and before its owner is destroyed, and its Search object is created '
+             'between that join and the start. '
              'Does NOT decide the promptness bound in seconds (one node of work between polls).',
         design_ref='DESIGN.md §3 C06',
         note=TB + 'UCI protocol restricts commands during a search to stop/isready/quit; field-based sharing; '
